@@ -36,6 +36,136 @@ def observe_concretize(records):
         ConcretizeMemLocPass.run_pass = orig
 
 
+@contextmanager
+def record_allocator_calls(traces):
+    """log every call of the real venom MemoryAllocator (per instance) as C04/VenomAllocSeq.v vmop terms + returned pointers"""
+    from vyper.venom.memory_allocator import MemoryAllocator as MA
+    names = ["start_fn_allocation", "reset", "reserve", "reserve_all", "allocate", "add_global", "set_position", "add_allocated"]
+    orig = {n: getattr(MA, n) for n in names}
+
+    def tr_of(self):
+        t = traces.setdefault(id(self), {"ops": [], "ptrs": [], "ids": {}, "keep": self})
+        return t
+
+    def aid(t, alloca):
+        return t["ids"].setdefault(alloca, len(t["ids"]))
+
+    def mk(name):
+        f = orig[name]
+
+        def w(self, *a):
+            t = tr_of(self)
+            if name == "start_fn_allocation":
+                t["ops"].append("MStartFn")
+            elif name == "reset":
+                t["ops"].append("MReset")
+            elif name == "reserve":
+                if not t.get("in_all"):
+                    t["ops"].append(f"MReserve {aid(t, a[0])}%nat")
+            elif name == "reserve_all":
+                t["ops"].append("MReserveAll")
+                t["in_all"] = True
+                try:
+                    return f(self, *a)
+                finally:
+                    t["in_all"] = False
+            elif name == "allocate":
+                r = f(self, *a)
+                t["ops"].append(f"MAllocate {aid(t, a[0])}%nat {coqrun.hexlit(a[0].alloca_size)}")
+                t["ptrs"].append(r)
+                return r
+            elif name == "add_global":
+                t["ops"].append(f"MAddGlobal {aid(t, a[0])}%nat")
+            elif name == "set_position":
+                t["ops"].append(f"MSetPos {aid(t, a[0])}%nat {coqrun.hexlit(a[1])} {coqrun.hexlit(a[0].alloca_size)}")
+            elif name == "add_allocated":
+                ids = [aid(t, m) for m in a[0]]
+                t["ops"].append("MAddFn [" + "; ".join(f"{i}%nat" for i in ids) + "]")
+            return f(self, *a)
+        return w
+    for n in names:
+        setattr(MA, n, mk(n))
+    try:
+        yield
+    finally:
+        for n in names:
+            setattr(MA, n, orig[n])
+
+
+class _FA:
+    def __init__(self, size):
+        self.alloca_size = size
+
+
+def alloc_sequences(ctx, model_ok, n, traces):
+    """exact differential of the state-machine model: random call sequences against the real MemoryAllocator, and the
+    call traces recorded while compiling the corpus"""
+    from vyper.venom.memory_allocator import MemoryAllocator
+    rnd = ctx.rng("vmseq")
+    exprs, wants, metas = [], [], []
+    for _ in range(n):
+        ma = MemoryAllocator()
+        allocas, ops, ptrs = [], [], []
+        for _ in range(rnd.randint(1, 18)):
+            r = rnd.random()
+            placed = [k for k, (a, p) in enumerate(allocas) if p]
+            if r < 0.4 or not allocas:
+                a = _FA(rnd.choice([0, 32, 32, 64, 96, 1, 100, 4096]))
+                allocas.append([a, True])
+                ptrs.append(ma.allocate(a))
+                ops.append(f"MAllocate {len(allocas) - 1}%nat {coqrun.hexlit(a.alloca_size)}")
+            elif r < 0.55:
+                ma.reset()
+                ops.append("MReset")
+            elif r < 0.7 and placed:
+                k = rnd.choice(placed)
+                ma.reserve(allocas[k][0])
+                ops.append(f"MReserve {k}%nat")
+            elif r < 0.78:
+                ma.reserve_all()
+                ops.append("MReserveAll")
+            elif r < 0.86 and placed:
+                k = rnd.choice(placed)
+                ma.add_global(allocas[k][0])
+                ops.append(f"MAddGlobal {k}%nat")
+            elif r < 0.92:
+                ma.start_fn_allocation(None)
+                ops.append("MStartFn")
+            elif r < 0.96:
+                a = _FA(rnd.choice([32, 64, 320]))
+                pos = 32 * rnd.randint(0, 20)
+                allocas.append([a, True])
+                ma.set_position(a, pos)
+                ops.append(f"MSetPos {len(allocas) - 1}%nat {coqrun.hexlit(pos)} {coqrun.hexlit(a.alloca_size)}")
+            elif placed:
+                ks = rnd.sample(placed, min(len(placed), rnd.randint(1, 3)))
+                ma.add_allocated([allocas[k][0] for k in ks])
+                ops.append("MAddFn [" + "; ".join(f"{k}%nat" for k in ks) + "]")
+        exprs.append("vm_trace [" + "; ".join(ops) + "]")
+        wants.append(ptrs)
+        metas.append({"kind": "random call sequence on vyper.venom.memory_allocator.MemoryAllocator", "ops": ops})
+    n_real = 0
+    for t in traces.values():
+        if t["ptrs"] and len(t["ops"]) <= 4000:
+            exprs.append("vm_trace [" + "; ".join(t["ops"]) + "]")
+            wants.append(t["ptrs"])
+            metas.append({"kind": "allocator calls recorded while compiling a corpus contract", "ops": t["ops"][:200]})
+            n_real += 1
+    found = False
+    if model_ok and exprs:
+        outs = coqrun.eval_zlists("From Verif Require Import C04.AllocModel C04.VenomAllocSeq.\n", exprs, "c04vmseq",
+                                  shard=max(8, len(exprs) // 8 + 1), timeout=600)
+        for m, wnt, got in zip(metas, wants, outs):
+            if got != wnt:
+                ctx.violation("correspondence-broken", "state-machine model of the venom MemoryAllocator differs from the real allocator",
+                              dict(m, real=wnt, model=[str(x) for x in got]))
+                found = True
+                break
+    ctx.corr["venom_allocator_sequences"] = {"random": n, "recorded_corpus_traces": n_real,
+                                             "allocate_calls": sum(len(w_) for w_ in wants)}
+    return len(exprs), found
+
+
 def export_memliveness(pass_, ml):
     """tables of the REAL MemLivenessAnalysis for the verified checker C04/MemLiveness.v memliveness_check"""
     from vyper.venom.basicblock import IRLabel, IRLiteral
@@ -134,13 +264,14 @@ def run(ctx, model_ok, n):
             Config(True, "gas", "cancun", flags=["disable_mem2var"])]
     exprs, meta = [], []
     n_rows = n_pairs = n_pinned = ml_insts = 0
+    traces = {}
     for idx in range(n):
         src = gen_mem_contract(rnd, idx)
         cfg = cfgs[idx % len(cfgs)]
         records = []
         with warnings.catch_warnings():
             warnings.simplefilter("ignore")
-            with observe_concretize(records):
+            with record_allocator_calls(traces), observe_concretize(records):
                 compile_src(src, cfg, formats=("bytecode",))
         for rec in records:
             rows, glob = rec["rows"], rec["globals"]
@@ -190,14 +321,23 @@ def run(ctx, model_ok, n):
             pairs_c = "[" + "; ".join(f"({i}%nat, {j}%nat)" for i, j in pairs) + "]"
             exprs.append(f"concretize_out {pairs_c} {globs} {pin_c} {todo_c}")
             meta.append((detail, "model of the greedy loop (offsets in placement order)", [r[0] for _, r in pinned] + [r[0] for _, r in todo]))
+    import time as _t
+    ctx.log(f"  venom corpus compiled, {len(exprs)} coq exprs")
+    _t0 = _t.time()
     if model_ok and exprs:
         outs = coqrun.eval_zlists("From Verif Require Import C04.AllocModel C04.Concretize C04.MemLiveness.\n", exprs, "c04conc",
-                                  shard=max(8, len(exprs) // 12 + 1), timeout=900)
+                                  shard=max(8, len(exprs) // 8 + 1), timeout=900)
         for (detail, what, want), got in zip(meta, outs):
             if got != want:
                 ctx.violation("correspondence-broken", f"{what} disagrees with the real ConcretizeMemLocPass output",
                               dict(detail, real=want, coq=[str(x) for x in got]))
                 return n_rows, True
+    ctx.log(f"  concretize/memliveness eval {_t.time() - _t0:.1f}s")
+    _t0 = _t.time()
+    nseq, fseq = alloc_sequences(ctx, model_ok, 60 if n < 100 else 600, traces)
+    ctx.log(f"  allocator sequences {_t.time() - _t0:.1f}s")
+    if fseq:
+        return n_rows, True
     ctx.corr["concretize"] = {"contracts": n, "allocas": n_rows, "interfering_pairs_checked": n_pairs, "pinned": n_pinned, "memliveness_instructions_checked": ml_insts,
                               "configs": [c.name for c in cfgs]}
     return n_rows, False
